@@ -15,14 +15,44 @@ import (
 
 // symExpr renders an SSA value as a normalised expression over parameters, fields and constants.
 // The receiver of a method is printed as "recv" so that sibling methods can be compared.
-func symExpr(v ssa.Value, depth int) string {
+// symU gives symExpr access to the universe (call sites of a function, universe membership); set by loadUniverse.
+var symU *Universe
+
+var symCallers map[*ssa.Function][]ssa.CallInstruction
+
+func callersOf(fn *ssa.Function) []ssa.CallInstruction {
+	if symU == nil {
+		return nil
+	}
+	if symCallers == nil {
+		symCallers = map[*ssa.Function][]ssa.CallInstruction{}
+		for _, f := range symU.Funcs {
+			for _, b := range f.Blocks {
+				for _, ins := range b.Instrs {
+					if call, ok := ins.(ssa.CallInstruction); ok {
+						if sc := call.Common().StaticCallee(); sc != nil {
+							symCallers[sc] = append(symCallers[sc], call)
+						}
+					}
+				}
+			}
+		}
+	}
+	return symCallers[fn]
+}
+
+func symExpr(v ssa.Value, depth int) string { return symExprB(v, depth, nil) }
+
+// symExprB: bind maps parameters of an inlined callee to the caller-side expression.
+func symExprB(v ssa.Value, depth int, bind map[*ssa.Parameter]string) string {
 	if v == nil {
 		return "nil"
 	}
-	if depth > 12 {
+	if depth > 14 {
 		return "…"
 	}
 	d := depth + 1
+	symExpr := func(v ssa.Value, depth int) string { return symExprB(v, depth, bind) }
 	switch x := v.(type) {
 	case *ssa.Const:
 		if x.Value == nil {
@@ -30,8 +60,23 @@ func symExpr(v ssa.Value, depth int) string {
 		}
 		return x.Value.ExactString()
 	case *ssa.Parameter:
-		if fn := x.Parent(); fn != nil && fn.Signature.Recv() != nil && len(fn.Params) > 0 && fn.Params[0] == x {
+		if bs, ok := bind[x]; ok {
+			return bs
+		}
+		fn := x.Parent()
+		if fn != nil && fn.Signature.Recv() != nil && len(fn.Params) > 0 && fn.Params[0] == x {
 			return "recv"
+		}
+		// a parameter of an unexported helper with a single call site is what that call site passes
+		if fn != nil && fn.Object() != nil && !fn.Object().Exported() {
+			if cs := callersOf(fn); len(cs) == 1 && cs[0].Parent() != fn {
+				args := callArgs(cs[0].Common())
+				for i, p := range fn.Params {
+					if p == x && i < len(args) {
+						return symExprB(args[i], d+2, nil)
+					}
+				}
+			}
 		}
 		return "param:" + x.Name()
 	case *ssa.FreeVar:
@@ -90,6 +135,18 @@ func symExpr(v ssa.Value, depth int) string {
 		}
 		return "phi[" + strings.Join(es, "|") + "]"
 	case *ssa.Call:
+		// a pure single-expression helper of the universe is printed as its body with the arguments substituted
+		if sc := x.Call.StaticCallee(); sc != nil && symU != nil && symU.InUniverse(sc) && len(sc.Blocks) == 1 && sc.Signature.Results().Len() == 1 {
+			if ret, ok := sc.Blocks[0].Instrs[len(sc.Blocks[0].Instrs)-1].(*ssa.Return); ok && pureBlock(sc.Blocks[0]) {
+				nb := map[*ssa.Parameter]string{}
+				for i, a := range callArgs(&x.Call) {
+					if i < len(sc.Params) {
+						nb[sc.Params[i]] = symExpr(a, d)
+					}
+				}
+				return symExprB(ret.Results[0], d, nb)
+			}
+		}
 		var as []string
 		for _, a := range callArgs(&x.Call) {
 			as = append(as, symExpr(a, d))
@@ -196,4 +253,23 @@ func guardConds(b *ssa.BasicBlock) []string {
 	}
 	sort.Strings(out)
 	return out
+}
+
+// pureBlock: the block only computes values (no stores, no calls other than builtins and math/bits helpers).
+func pureBlock(b *ssa.BasicBlock) bool {
+	for _, ins := range b.Instrs {
+		switch x := ins.(type) {
+		case *ssa.Store, *ssa.MapUpdate, *ssa.Send, *ssa.Go, *ssa.Defer:
+			return false
+		case *ssa.Call:
+			if _, ok := x.Call.Value.(*ssa.Builtin); ok {
+				continue
+			}
+			if sc := x.Call.StaticCallee(); sc != nil && sc.Pkg != nil && sc.Pkg.Pkg.Path() == "math/bits" {
+				continue
+			}
+			return false
+		}
+	}
+	return true
 }
